@@ -40,7 +40,7 @@ impl Prop for C13P {
         };
         let mut v: Vec<String> = receivers(n, true, if tier == Tier::Thorough { Nest::All } else { Nest::Sample }, &parents).iter().map(|r| r.enc()).collect();
         // lines of 9 and 17 cells (beyond the block sizes of chunked or unrolled loops)
-        for rd in [Recv::owned(9, 2), Recv::owned(2, 9), Recv::owned(17, 1), Recv::window(11, 3, (1, 0), (10, 2)), Recv::foreign_owned(9, 2), Recv::foreign_window(11, 3, (1, 1), (10, 3))] {
+        for rd in [Recv::owned(9, 2), Recv::owned(2, 9), Recv::owned(17, 1), Recv::window(11, 3, (1, 0), (10, 2)), Recv::foreign_owned(9, 2), Recv::foreign_window(11, 3, (1, 1), (10, 3)), Recv::window(36, 3, (1, 0), (35, 3)), Recv::owned(34, 2), Recv::window(70, 2, (2, 0), (69, 2)), Recv::foreign_window(36, 2, (1, 0), (35, 2))] {
             v.push(rd.enc());
         }
         for (c, r) in crate::engine::util::shapes(3) {
